@@ -460,7 +460,10 @@ func runC11E2E(t *testing.T, s C11Scenario) (res Result) {
 			time.Sleep(100 * time.Millisecond)
 		}
 		if len(topicA.ListPeers()) < 1 || len(psB.ListPeers(topicID)) < 1 || len(topicC.ListPeers()) < 1 {
-			res.failf("HARNESS: gossipsub topic peers did not show up")
+			// the scenario could not be set up (about one in 20 000 e2e scenarios: the mocknet gossip mesh does
+			// not form, with or without a restart of the Subscriber): excluded and counted, not judged
+			evidFor("C11").Exclude("gossipsub mesh did not form within 2 virtual minutes")
+			res.label("excluded_mesh_did_not_form")
 			return
 		}
 		time.Sleep(3 * time.Second)
